@@ -32,11 +32,18 @@ def ForestUnlink (s s' : State) (c p : NoteId) : Prop :=
       else (s.notes j).children) ∧
     (s'.notes j).parent = (if j = c then none else (s.notes j).parent)
 
-/-- The thread is about to leave WAIT_FOR_NO_CHILDREN (`c`) and to disconnect `c` from `p`. -/
+/-- The thread is about to end an activation of `note_notify_child (c, p)` — it found `c`
+    notified already (`ld`), or leaves WAIT_FOR_NO_CHILDREN (`c`) — or to leave the
+    WAIT_FOR_NO_CHILDREN (`c`) of `nsync_note_free (c)`; the step may disconnect `c` from `p`. -/
 def PC.unlinks (pc : PC) (c p : NoteId) : Prop :=
-  (∃ kept f rest top, pc = .chd (.waitRet kept) (f :: rest) top ∧ f.note = c ∧
-    frameParent rest top = some p) ∨
+  (∃ pos f rest top, pc = .chd pos (f :: rest) top ∧ (pos = .ld ∨ ∃ kept, pos = .waitRet kept) ∧
+    f.note = c ∧ frameParent rest top = some p) ∨
   (∃ kept c' nx, pc = .fr (.waitRet kept) c (some p) c' nx)
+
+/-- The thread is inside `note_notify_child`. -/
+def PC.isChd : PC → Bool
+  | .chd .. => true
+  | _ => false
 
 theorem InvL.claim_of {s : State} (hL : InvL s) {t : Tid} {pc : PC} (h : s.pc t = pc) :
     LClaim s pc := h ▸ hL.claim t
@@ -50,6 +57,61 @@ macro "nrel_fsame" : tactic => `(tactic| (
   intro j
   constructor <;> simp))
 
+theorem childUnlinks_some {s : State} {f : Frame} {rest : List Frame} {top : Top} {p : NoteId}
+    (h : childUnlinks s f rest top = some p) :
+    frameParent rest top = some p ∧ (s.notes f.note).disconnecting = 1 := by
+  unfold childUnlinks at h
+  split at h
+  · next q hq =>
+    split at h
+    · next hd => cases h; exact ⟨hq, hd⟩
+    · cases h
+  · cases h
+
+/-- The end of an activation of `note_notify_child`: the forest is left alone, or the note of the
+    activation is disconnected from the `parent` argument — by the last disconnector. -/
+theorem forest_childReturn (s s1 : State) (t : Tid) (f : Frame) (rest : List Frame) (top : Top)
+    (h1 : ∀ j, (s1.notes j).children = (s.notes j).children ∧
+      (s1.notes j).parent = (s.notes j).parent)
+    (hd : (s1.notes f.note).disconnecting = (s.notes f.note).disconnecting) :
+    ForestSame s (childReturn s1 t f rest top) ∨
+    (∃ p, frameParent rest top = some p ∧ (s.notes f.note).disconnecting = 1 ∧
+      ForestUnlink s (childReturn s1 t f rest top) f.note p) := by
+  cases hu : childUnlinks s1 f rest top with
+  | none => left; intro j; simp [hu, h1 j]
+  | some p =>
+    right
+    obtain ⟨h2, h3⟩ := childUnlinks_some hu
+    refine ⟨p, h2, hd ▸ h3, fun j => ⟨?_, ?_⟩⟩
+    · simp only [childReturn_f_children, hu, Option.some.injEq, (h1 j).1]
+      by_cases hj : j = p
+      · subst hj; simp
+      · rw [if_neg (fun h => hj h.symm), if_neg hj]
+    · simp [hu, (h1 j).2]
+
+/-- … in the shape of the conclusion of `step_forest`. -/
+theorem step_forest_childReturn {s s1 : State} {e : Event} {t : Tid} {pos : CPos} {f : Frame}
+    {rest : List Frame} {top : Top} (he : e.actor = some t)
+    (hpc : s.pc t = .chd pos (f :: rest) top) (hpos : pos = .ld ∨ ∃ kept, pos = .waitRet kept)
+    (h1 : ∀ j, (s1.notes j).children = (s.notes j).children ∧
+      (s1.notes j).parent = (s.notes j).parent)
+    (hd : (s1.notes f.note).disconnecting = (s.notes f.note).disconnecting) :
+    ForestSame s (childReturn s1 t f rest top) ∨
+    (∃ a c p dl, e.actor = some a ∧ s.pc a = .newP .ld c p dl ∧ (s.notes p).notified = false ∧
+      (childReturn s1 t f rest top).pc a = .newP .unlockCall c p dl ∧
+      ForestLink s (childReturn s1 t f rest top) c p) ∨
+    (∃ a n p c nx, e.actor = some a ∧ s.pc a = .fr .lockChildRet n (some p) c nx ∧
+      (s.notes c).disconnecting = 0 ∧ ForestMove s (childReturn s1 t f rest top) c n p) ∨
+    (∃ a n c nx, e.actor = some a ∧ s.pc a = .fr .lockChildRet n none c nx ∧
+      (s.notes c).disconnecting = 0 ∧ ForestUnlink s (childReturn s1 t f rest top) c n) ∨
+    (∃ a c p, e.actor = some a ∧ (s.pc a).unlinks c p ∧
+      ((s.pc a).isChd = true → (s.notes c).disconnecting = 1) ∧
+      ForestUnlink s (childReturn s1 t f rest top) c p) := by
+  rcases forest_childReturn s s1 t f rest top h1 hd with h | ⟨p, hp, hd', hf⟩
+  · exact Or.inl h
+  · right; right; right; right
+    exact ⟨t, f.note, p, he, Or.inl ⟨_, _, _, _, hpc, hpos, rfl, hp⟩, fun _ => hd', hf⟩
+
 theorem step_forest {s s' : State} {e : Event} (hS : InvS s) (hL : InvL s)
     (hs : step s e = .ok s') :
     ForestSame s s' ∨
@@ -59,14 +121,21 @@ theorem step_forest {s s' : State} {e : Event} (hS : InvS s) (hL : InvL s)
       (s.notes c).disconnecting = 0 ∧ ForestMove s s' c n p) ∨
     (∃ a n c nx, e.actor = some a ∧ s.pc a = .fr .lockChildRet n none c nx ∧
       (s.notes c).disconnecting = 0 ∧ ForestUnlink s s' c n) ∨
-    (∃ a c p, e.actor = some a ∧ (s.pc a).unlinks c p ∧ (s.notes c).children = [] ∧
-      ForestUnlink s s' c p) := by
+    (∃ a c p, e.actor = some a ∧ (s.pc a).unlinks c p ∧
+      ((s.pc a).isChd = true → (s.notes c).disconnecting = 1) ∧ ForestUnlink s s' c p) := by
   cases e
   all_goals step_cases hs
   all_goals (try (left; intro j; exact ⟨rfl, rfl⟩))
   all_goals (try (nrel_fsame; done))
+  -- the end of an activation of note_notify_child
+  all_goals (try (
+    have hpc := ‹s.pc _ = PC.chd _ _ _›
+    exact step_forest_childReturn rfl hpc (by simp) (fun j => ⟨by simp, by simp⟩) (by simp)))
   all_goals (repeat' split)
   all_goals (try (nrel_fsame; done))
+  all_goals (try (
+    have hpc := ‹s.pc _ = PC.chd _ _ _›
+    exact step_forest_childReturn rfl hpc (by simp) (fun j => ⟨by simp, by simp⟩) (by simp)))
   -- nsync_note_new links the new note
   · have hpc := ‹s.pc _ = _›
     have hpos := ‹(s.notes _).ntime.pos›
@@ -82,7 +151,8 @@ theorem step_forest {s s' : State} {e : Event} (hS : InvS s) (hL : InvL s)
     have h2 := hL.claim_of hpc
     have hne := (h2.2.1 _ rfl).2
     refine ⟨_, _, _, _, _, rfl, hpc, hd, fun j => ⟨?_, by simp⟩⟩
-    simp only [setPc_notes, link_f_children, eraseChild_f_children, acquire_f_children]
+    simp only [setPc_notes, link_f_children, eraseChild_f_children, acquire_f_children,
+      setAdopted_f_children]
     split
     · next hjp => subst hjp; simp [hne]
     · rfl
@@ -90,23 +160,14 @@ theorem step_forest {s s' : State} {e : Event} (hS : InvS s) (hL : InvL s)
     have hd := ‹(s.notes _).disconnecting = 0›
     right; right; right; left
     exact ⟨_, _, _, _, rfl, hpc, hd, fun j => ⟨by simp, by simp⟩⟩
-  -- note_notify_child disconnects the note from its parent
-  · have hpc := ‹s.pc _ = _›
-    right; right; right; right
-    exact ⟨_, _, _, rfl, Or.inl ⟨_, _, _, _, hpc, rfl, ‹frameParent _ _ = _›⟩,
-      ‹(s.notes _).children = []›, fun j => ⟨by simp, by simp⟩⟩
-  · have hpc := ‹s.pc _ = _›
-    right; right; right; right
-    exact ⟨_, _, _, rfl, Or.inl ⟨_, _, _, _, hpc, rfl, ‹frameParent _ _ = _›⟩,
-      ‹(s.notes _).children = []›, fun j => ⟨by simp, by simp⟩⟩
   -- nsync_note_free disconnects the note from its parent
   · have hpc := ‹s.pc _ = _›
     right; right; right; right
-    exact ⟨_, _, _, rfl, Or.inr ⟨_, _, _, hpc⟩, ‹(s.notes _).children = []›,
+    exact ⟨_, _, _, rfl, Or.inr ⟨_, _, _, hpc⟩, by rw [hpc]; simp [PC.isChd],
       fun j => ⟨by simp, by simp⟩⟩
   · have hpc := ‹s.pc _ = _›
     right; right; right; right
-    exact ⟨_, _, _, rfl, Or.inr ⟨_, _, _, hpc⟩, ‹(s.notes _).children = []›,
+    exact ⟨_, _, _, rfl, Or.inr ⟨_, _, _, hpc⟩, by rw [hpc]; simp [PC.isChd],
       fun j => ⟨by simp, by simp⟩⟩
   -- malloc: a note that was never allocated has neither children nor parent
   · have hfresh := ‹(s.notes _).allocated = false›
